@@ -76,6 +76,18 @@ TEXTS = {
         "note": NOTE_COMMON + "Axioms: the four standard-library axioms behind Coq Reals (via Flocq's binary32 definitions). Commutativity of binary32 + is a hypothesis of the symmetry theorem (not proved for Flocq here); the check compares (A,B) with (B,A) bit for bit instead.",
         "technique": TECH,
     },
+    "C06": {
+        "text": "Theorems (Properties/C06.v, about the Gallina transcription with the p-value in exact arithmetic): SampleSet size = number of "
+                "terms and count(g) = number of term-annotation links, every stored count positive (any term list); the exact tail is antitone "
+                "in k; the code's outer branches (x < min -> 1, x >= max -> 0). PARTIAL: the crate's f64 evaluation of the tail through "
+                "ln_gamma / ln / exp is not modelled bit for bit; spec_C06 decides per input that there is exactly one record per annotation "
+                "linked to a sample term, with k, with p within relative 1e-9 of the exact tail P[X >= k] for (N, K, n) recomputed from the "
+                "crate's own observation, p in [0,1], p antitone in k for equal K, and fold enrichment bit-exact (Flocq binary64); the "
+                "transcription (counts, wiring, fold) is diffed against the crate.",
+        "design_ref": "DESIGN.md §4 C06",
+        "note": NOTE_COMMON + "Axioms: the four standard-library axioms behind Coq Reals (via Flocq's binary64 definitions used in the run file).",
+        "technique": TECH,
+    },
     "C07": {
         "text": "Theorems (Properties/C07.v): big-endian u32 round trip, name cut (bounded by the limit and by the name, identity when it fits, "
                 "limit fits the one-byte field; limits regenerated from the source), writer header accepted by the reader. PARTIAL: the "
